@@ -47,6 +47,41 @@ def neutral_table():
         out.append(f"| {name} | {v['description']} | {verdict} |")
     return "\n".join(out)
 
+def refactoring_table():
+    out = ["| refactoring | what it does (title given by its author) | all 20 checks |", "|---|---|---|"]
+    res = {}
+    p = os.path.join(HERE, "selftest", "catalogue_results.json")
+    if os.path.exists(p):
+        res = json.load(open(p)).get("neutral", {})
+    for d in sorted(glob.glob(os.path.join(HERE, "selftest", "refactorings", "*"))):
+        name = os.path.basename(d)
+        title = ""
+        rd = os.path.join(d, "README.md")
+        if os.path.exists(rd):
+            for l in open(rd):
+                l = l.strip()
+                if l:
+                    title = re.sub(r"^#+\s*(r\d+\s*[-–—:.]\s*)?", "", l)
+                    break
+        title = title.replace("|", "/")[:160]
+        hits = res.get(name)
+        if hits is None:
+            verdict = "not run"
+        elif hits == {}:
+            verdict = "silent"
+        else:
+            verdict = "reports " + ",".join(sorted(hits))
+        note = NOTES.get(name)
+        if note:
+            verdict += " — " + note
+        out.append(f"| {name} | {title} | {verdict} |")
+    return "\n".join(out)
+
+NOTES = {}
+np_ = os.path.join(HERE, "selftest", "refactoring_notes.json")
+if os.path.exists(np_):
+    NOTES = json.load(open(np_))
+
 def findings():
     fixed, known = [], []
     for l in open(os.path.join(HERE, "known_findings.txt")):
@@ -62,7 +97,7 @@ def findings():
 
 s = open(os.path.join(HERE, "DESIGN.md")).read()
 fx, kn = findings()
-for name, body in [("rules", rules_table()), ("seeded", seeded_table()), ("neutral", neutral_table()), ("fixed", fx), ("known", kn)]:
+for name, body in [("rules", rules_table()), ("seeded", seeded_table()), ("neutral", neutral_table()), ("refactorings", refactoring_table()), ("fixed", fx), ("known", kn)]:
     b, e = f"<!-- BEGIN GENERATED:{name} -->", f"<!-- END GENERATED:{name} -->"
     if b in s:
         s = s[:s.index(b) + len(b)] + "\n" + body + "\n" + s[s.index(e):]
